@@ -350,3 +350,82 @@ Example seg_checked_witness :
   seg_checked [[101; 204; 129]; [98]] = true /\ seg_checked [[101]; [204; 129]; [98]] = false
   /\ seg_checked [[204]; [129]] = false.
 Proof. vm_compute. repeat split. Qed.
+
+(** * The tokenisation of a line inside the model (C20_Words.v; UCD_Model.v for the word regex and the
+      class predicates, NFKC_Tie.process_line for clean + NFKC, UAX29_Model.segment for the clusters;
+      pinned facts about the scanner and the tables in UCD_Props.v).
+      [linfo_of_raw raw] is what a worker of [Dictionary::create] derives from the raw line;
+      [raw_tokens chars n raw] its tokens; [create_raw] = [create] on raw lines; [modelize v] replaces the
+      oracle words of the input by the model's own ([run_C20u] / [check_C20u] = [run_C20] / [check_C20] on
+      it, plus [builds_same]: all builds of a case return the same dictionary). *)
+From TU Require Import UCD_Model UCD_Words C20_Words C20_WordsProofs.
+
+(** the lines the model works on are computed from the raw lines alone *)
+Theorem modelize_lines : forall v, in_lines (modelize v) = map linfo_of_raw (in_raws v).
+Proof. exact in_lines_modelize. Qed.
+Print Assumptions modelize_lines.
+
+Theorem modelize_create : forall v,
+  model_create (modelize v)
+  = create_raw (in_chars v) (in_cg v) (in_max_size v) (in_max_seq v) (in_raws v) (in_arr v) (in_hp v).
+Proof. exact model_create_modelize. Qed.
+Print Assumptions modelize_create.
+
+(** counts_exact about the model's own tokenisation of the raw lines *)
+Theorem counts_exact_u : forall chars cg max_size max_seq raws arr hp d,
+  create_raw chars cg max_size max_seq raws arr hp = Ok d ->
+  NoDup (map fst d) /\
+  forall w f, In (w, f) d ->
+    f = count_tok w (flat_map (raw_tokens chars (N.to_nat cg)) (take_opt max_seq raws)) /\ 0 < f.
+Proof. exact counts_exact_u_l. Qed.
+Print Assumptions counts_exact_u.
+
+(** word mode: the tokens of a raw line are the UTF-8 encodings of the regex matches — by
+    [UCD_Props.word_parts_eq] the maximal [\w]-runs made of class characters — of the whitespace-separated
+    words of the cleaned, NFKC-normalised line, in order *)
+Theorem raw_tokens_word_u : forall n raw,
+  raw_tokens false n raw
+  = flat_map (fun w => map (fun p : nat * str => utf8s (snd p)) (class_runs w)) (split_ws (norm_line raw)).
+Proof. exact raw_tokens_word_l. Qed.
+Print Assumptions raw_tokens_word_u.
+
+(** character mode: per word, the n-gram windows ([char_tokens_1_u] / [char_tokens_3_u]) over the clusters
+    of [segment w] with the model's own classes [ucd_cl] = ([str_is_alphabetic], [str_is_punctuation]) *)
+Theorem raw_tokens_char_u : forall n raw,
+  raw_tokens true n raw = flat_map (fun w => char_tokens n (cls_u ucd_cl w)) (split_ws (norm_line raw)).
+Proof. exact raw_tokens_char_l. Qed.
+Print Assumptions raw_tokens_char_u.
+
+(** no cluster is both alphabetic and punctuation (table fact: \p{P} of regex-syntax and Alphabetic of the
+    std are disjoint), so the centre filter "alphabetic or punctuation" is a disjoint union *)
+Theorem classes_exclusive : forall c, str_is_alphabetic c = true -> str_is_punctuation c = true -> False.
+Proof. exact ucd_cl_exclusive. Qed.
+Print Assumptions classes_exclusive.
+
+(** the executable statement — [check_C20] on the modelized input and identical builds — holds of the
+    model's own output *)
+Theorem check_run_u : forall v, segs_cover v = true -> check_C20u v (run_C20u v) = true.
+Proof. exact check_run_u_l. Qed.
+Print Assumptions check_run_u.
+
+(** what the added clause of [check_C20u] says of an accepted output: every build has the status of the
+    first one and, when it succeeded, the same items up to list order and the same freq_sum *)
+Theorem builds_same_sound : forall c0 rest others,
+  builds_same (L (L (c0 :: rest) :: others)) = true ->
+  forall c, In c rest ->
+    (c0 = L [I 1%Z] /\ c = L [I 1%Z])
+    \/ exists i0 f0 i f, c0 = L [I 0%Z; i0; I f0] /\ c = L [I 0%Z; i; I f]
+         /\ same_dict (v_items i0) (v_items i) = true /\ f0 = f.
+Proof. exact builds_same_sound_l. Qed.
+Print Assumptions builds_same_sound.
+
+Example check_run_u_witness :
+  segs_cover (L [L [I 0; I 1; L []; L []; L [I 0; I 2]]; L [L [I 1; L [L [L [I 97; I 32; I 98; I 49]; L []]]]]; L [L []; L []]; L []; L []; L []]) = true.
+Proof. vm_compute. reflexivity. Qed.
+(** "unit-test! ab12 #x": word mode keeps unit, test, x; character 1-grams keep the letters and the
+    punctuation, not the digits *)
+Example raw_tokens_witness :
+  raw_tokens false 1 [117;110;105;116;45;116;101;115;116;33;32;97;98;49;50;32;35;120]
+    = [[117;110;105;116]; [116;101;115;116]; [120]]
+  /\ raw_tokens true 1 [97;98;49;50;32;35;120] = [[97]; [98]; [35]; [120]].
+Proof. vm_compute. split; reflexivity. Qed.
